@@ -1,5 +1,5 @@
 \* spec -> code: every edge of core S up to depth 3, with the observation of every state (workers 1)
-CONSTANTS NL = 4  NA0 = 3  NF = 2  MB = 3  MaxCascade = 3  MaxLevel = 3  ReAdd = TRUE
+CONSTANTS NL = 4  NA0 = 3  NP0 = 1  NF = 2  MB = 3  MaxCascade = 3  MaxLevel = 3  ReAdd = TRUE
 CONSTANTS Layout <- LayoutS  Place <- PlaceS  SFlagSets <- FlagsAll  TrackSet <- Both  Go <- GoBounded
 ACTION_CONSTRAINT Emit
 INVARIANT EmitState
